@@ -167,7 +167,7 @@ variant("handlemail-session-local",
 		return
 	}"""))
 variant("rcptmax-check-first",
-  ("conn.go", """	p := parser{s: strings.TrimSpace(arg)}
+  ("conn.go", """	p := parser{s: trimASCIISpace(arg)}
 	recipient, err := p.parsePath()
 	if err != nil {
 		c.writeResponse(501, EnhancedCode{5, 5, 2}, "Was expecting RCPT arg syntax of TO:<address>")
@@ -183,7 +183,7 @@ variant("rcptmax-check-first",
 		return
 	}
 
-	p := parser{s: strings.TrimSpace(arg)}
+	p := parser{s: trimASCIISpace(arg)}
 	recipient, err := p.parsePath()
 	if err != nil {
 		c.writeResponse(501, EnhancedCode{5, 5, 2}, "Was expecting RCPT arg syntax of TO:<address>")
